@@ -203,6 +203,16 @@ def load_known():
 # main
 # ------------------------------------------------------------------------------------------------
 
+def _run_rules(mod, ctx):
+    try:
+        mod.run(ctx)
+    except F.AnchorMissing as e:
+        ctx.ob('ANCHOR', 'anchor:' + str(e), False, '-', 'anchor missing: %s (failing closed)' % e)
+    except Exception as e:  # a rule that cannot cope with the code's shape cannot decide: fail closed
+        traceback.print_exc(file=sys.stderr)
+        ctx.ob('CRASH', 'rule-crash', False, '-', 'the rule engine raised %s: %s (code shape not understood; failing closed)' % (type(e).__name__, e))
+
+
 def run_property(prop, tier, replay=None, facts_override=None, quiet=False):
     t0 = time.time()
     mod = importlib.import_module('props.' + prop.lower())
@@ -222,13 +232,25 @@ def run_property(prop, tier, replay=None, facts_override=None, quiet=False):
         fresh[cfg] = fr
     primary = getattr(mod, 'PRIMARY', cfgs[0] if 'dbg' not in cfgs else 'dbg')
     ctx = Ctx(prop, progs[primary], tier, progs)
-    try:
-        mod.run(ctx)
-    except F.AnchorMissing as e:
-        ctx.ob('ANCHOR', 'anchor:' + str(e), False, '-', 'anchor missing: %s (failing closed)' % e)
-    except Exception as e:  # a rule that cannot cope with the code's shape cannot decide: fail closed
-        traceback.print_exc(file=sys.stderr)
-        ctx.ob('CRASH', 'rule-crash', False, '-', 'the rule engine raised %s: %s (code shape not understood; failing closed)' % (type(e).__name__, e))
+    _run_rules(mod, ctx)
+    if tier == 'thorough' and not hasattr(mod, 'PRIMARY'):
+        # second evaluation on the other configuration (cfg(debug_assertions) off): same rules, same keys
+        other = [c for c in cfgs if c != primary]
+        for oc in other:
+            ctx2 = Ctx(prop, progs[oc], tier, progs)
+            _run_rules(mod, ctx2)
+            st1 = {o.key: o for o in ctx.obls}
+            for o in ctx2.obls:
+                if o.key not in st1:
+                    o.detail = '[cfg %s only] ' % oc + o.detail
+                    ctx.obls.append(o)
+                    ctx.rule_counts[o.rule] = ctx.rule_counts.get(o.rule, 0) + 1
+                elif st1[o.key].ok and not o.ok:
+                    st1[o.key].ok = False
+                    st1[o.key].detail = '[violated in cfg %s] ' % oc + o.detail
+            ctx.stats['bodies_analysed'] |= ctx2.stats['bodies_analysed']
+            ctx.stats['call_sites'] += ctx2.stats['call_sites']
+            ctx.notes.append('rules re-evaluated on configuration %s: %d obligations' % (oc, len(ctx2.obls)))
     # skipped bodies must not be in the files the rules own
     owned = set(getattr(mod, 'FILES', []))
     for sk in ctx.prog.end.get('skipped', []):
@@ -336,14 +358,19 @@ def main(argv):
                 print('REPLAY: obligation %s no longer exists on this tree' % want)
         except Exception as e:  # pragma: no cover
             print('replay file unreadable: %s' % e)
-    if tier == 'thorough':
-        try:
-            import selftest
-            rc2 = selftest.run_for_property(a.prop.upper())
-            if rc2 != 0 and rc == 0:
-                rc = rc2
-        except ImportError:
-            pass
+    if tier == 'thorough' and os.environ.get('VERIF_SKIP_SELFTEST') != '1':
+        # the checker's own self-test for this property: mutants must be reported, benign edits must not.
+        # Its outcome says something about the checker, not about /repo: it is recorded, it never sets the exit code.
+        import selftest
+        res = selftest.summary_for_property(a.prop.upper())
+        evp = os.path.join(EVID, '%s.json' % a.prop.upper())
+        ev = json.load(open(evp))
+        ev['coverage']['selftest'] = res
+        ev['wall_s'] = round(ev['wall_s'] + res.get('wall_s', 0), 2)
+        json.dump(ev, open(evp, 'w'), indent=1)
+        print('selftest %s: %d mutants reported / %d, %d benign silent / %d, %d seeded reported / %d%s' % (
+            a.prop.upper(), res['mutants_detected'], res['mutants'], res['benign_silent'], res['benign'], res['seeded_detected'], res['seeded'],
+            '' if not res['problems'] else '  CHECKER-SELFTEST-PROBLEMS: ' + '; '.join(res['problems'][:5])))
     return rc
 
 
